@@ -876,6 +876,7 @@ class World(Engine):
     name = 'world'
     prop = 'C11'
     level = 'exploration'
+    isolates_plans = True       # every plan runs in its own forked child
 
     def worker_init(self, tier):
         from sim import sched
